@@ -11,7 +11,7 @@ struct BV { std::string key, what; };
 std::string consume_cls(const std::string& m);
 
 // ----------------------------------------------------------------------------- value pools per table
-static std::vector<std::string> ip_pool() { return {std::string(), std::string("\1\2\3\4", 4), std::string("\1\2\3\5", 4), std::string(16, '\x20'), std::string("\1\2\3\4\0", 5)}; }
+static std::vector<std::string> ip_pool() { return {std::string(), std::string("\1\2\3\4", 4), std::string("\1\2\3\5", 4), std::string(16, '\x20'), std::string("\1\2\3\4\0", 5), std::string(16, '\x20') + "%eth0", std::string(16, '\x20') + std::string(24, '\x21')}; }   // the last two: longer than an IPv6 address (the table takes any byte string), equal in their first 16 bytes
 static std::vector<std::string> name_pool() { return {std::string("\3www\0", 5), std::string("\3wwx\0", 5), std::string("\0", 1), std::string(3000, 'n'), std::string("\3www", 4)}; }
 static std::vector<ClassType> ct_pool() { std::vector<ClassType> v; for (auto p : std::vector<std::pair<int, int>>{{1, 1}, {1, 2}, {2, 1}, {0, 0}, {65535, 65535}}) { ClassType c; c.type = p.first; c.class_ = p.second; v.push_back(c); } return v; }
 static std::vector<std::vector<index_t>> list_pool() { return {{}, {0}, {1}, {0, 1}, {1, 0}, {0, 0}}; }
@@ -264,6 +264,14 @@ static std::string file_of(int content, const Pools& P, BlockParameters& bp) {
 }
 
 static std::string printable(const std::string& x) { for (unsigned char c : x.substr(0, 80)) if (c < 32 || c > 126) return "0x" + ref::hex(x.substr(0, 40)); return x.substr(0, 80); }
+// old content of an assignment target: the values that C_ADD_NEW, C_GENERIC_SHARED and C_AEC_AGAIN add later, in every table
+static void prefill_target(CdnsBlock& b, const Pools& P) {
+    b.add_ip_address("brand-new"); b.add_name_rdata("brand-new-name"); ClassType c; c.type = 4242; c.class_ = 42; b.add_classtype(c);
+    BlockParameters full; full.storage_parameters.max_block_items = 1000000; CdnsBlock tmp(full, 0); tmp.add_question_response_record(P.qr[3]); tmp.add_address_event_count(P.aec[0]);
+    // every table entry a fully-hinted block derives from qr[3] (names, addresses, class/types, RRs, lists, signatures)
+    for (size_t i = 0; i < tmp.m_ip_address.size(); i++) b.add_ip_address(tmp.get_ip_address(i)); for (size_t i = 0; i < tmp.m_name_rdata.size(); i++) b.add_name_rdata(tmp.get_name_rdata(i));
+    for (size_t i = 0; i < tmp.m_classtype.size(); i++) b.add_classtype(tmp.get_classtype(i)); for (size_t i = 0; i < tmp.m_qr_sig.size(); i++) b.add_qr_signature(tmp.get_qr_signature(i));
+}
 static void run_copy(int content, int way, int fate, const std::vector<int>& ops, const Pools& P, Result& R, std::vector<BV>& out) {
     BlockParameters bp; bp.storage_parameters.max_block_items = 1000000;
     BlockParameters bp_other; bp_other.storage_parameters.max_block_items = 2; bp_other.storage_parameters.ticks_per_second = 1000; bp_other.storage_parameters.storage_hints.query_response_hints = 0x5; bp_other.storage_parameters.storage_hints.other_data_hints = 0;
@@ -277,8 +285,10 @@ static void run_copy(int content, int way, int fate, const std::vector<int>& ops
         case W_COPY_CTOR: cp.reset(new CdnsBlock(*src)); break; case W_MOVE_CTOR: cp.reset(new CdnsBlock(std::move(*src))); break;
         // the target of an assignment already holds a block with the SAME parameters index but other parameters (tick rate, block size, hints)
         // ... and statistics of its own, an address event and a malformed message: everything the target held must be gone afterwards
-        case W_COPY_ASSIGN: cp.reset(new CdnsBlock(bp_other, fate % 2));   // same index as the source (other parameters) or another explicit index cp->add_ip_address("to-be-overwritten"); cp->add_question_response_record(P.qr[4], P.stats[1]); cp->add_address_event_count(P.aec[2]); *cp = *src; break;
-        case W_MOVE_ASSIGN: cp.reset(new CdnsBlock(bp_other, (fate + 1) % 2)); cp->add_name_rdata("to-be-overwritten"); cp->add_malformed_message(P.mm[0], P.stats[2]); cp->add_address_event_count(P.aec[2]); *cp = std::move(*src); break;
+        // (the index is the source's or another one, by fate). The target's old content includes the very values the later operations add ("brand-new",
+        // the records of qr[3]): whatever look-up structure the target had must not answer for values the assigned content doesn't hold
+        case W_COPY_ASSIGN: cp.reset(new CdnsBlock(bp_other, fate % 2)); prefill_target(*cp, P); cp->add_ip_address("to-be-overwritten"); cp->add_question_response_record(P.qr[4], P.stats[1]); cp->add_address_event_count(P.aec[2]); *cp = *src; break;
+        case W_MOVE_ASSIGN: cp.reset(new CdnsBlock(bp_other, (fate + 1) % 2)); prefill_target(*cp, P); cp->add_name_rdata("to-be-overwritten"); cp->add_malformed_message(P.mm[0], P.stats[2]); cp->add_address_event_count(P.aec[2]); *cp = std::move(*src); break;
         }
         if (fate == F_KEPT && (way == W_COPY_CTOR || way == W_COPY_ASSIGN)) { CdnsBlock& alias = *cp; *cp = alias; }   // self-assignment keeps the value
         if ((way == W_COPY_CTOR || way == W_COPY_ASSIGN) && ser(*src) != src_pre) out.push_back({tag + "|copying-changed-the-source", "the source block serialises differently after it was copied"});
